@@ -37,6 +37,9 @@ func init() {
 				Rule: "when the immutable object already exists (open succeeded) the write is unreachable and success requires the comparison to succeed", Run: c13h},
 			{ID: "C13.i", Title: "READ-LOOP-PROGRESS", Template: "T10", MinInst: 1,
 				Rule: "a Read-driven loop's buffer length has a static lower bound >= 1 (interval arithmetic over constants, len >= 0, min, max, +)", Run: c13i},
+			{ID: "C13.k", Title: "COMPARE-COMPLETE", Template: "T2", MinInst: 2,
+				Rule: "the comparison helper returns nil only on the edge where the read hit io.EOF (the whole existing file was read) and the remaining new data is empty; every read chunk is compared with the new data",
+				Run:  c13k},
 			{ID: "C13.j", Title: "MKDIR-BEFORE-WRITE", Template: "T1", MinInst: 1,
 				Rule: "Upload's durable.WriteFile is reachable only after durable.MkdirAll of the same directory succeeded", Run: c13j},
 		},
@@ -795,4 +798,93 @@ func c13j(c *Ctx) {
 		return
 	}
 	c.requireGate(f.Name+" mkdir before write", f, mk, OutNil, wr, "write after the directory chain was created and synced")
+}
+
+func c13k(c *Ctx) {
+	up := c.Fn("ctlog.(*LocalBackend).Upload")
+	if up == nil {
+		return
+	}
+	var cmpf *Func
+	for _, s := range up.Calls(Callee{pkgCtlog, "", "compareFile"}) {
+		if fn, ok := calleeObj(up.Info(), s.Call).(*types.Func); ok {
+			cmpf = c.P.FuncOf(fn)
+		}
+	}
+	if cmpf == nil {
+		c.Unk("comparison helper", "Upload does not call a comparison helper")
+		return
+	}
+	f := cmpf
+	c.touch(f)
+	info := f.Info()
+	g := f.Graph()
+	okRets := successReturns(f)
+	dataP := f.paramObj("data")
+	if len(okRets) == 0 || dataP == nil {
+		c.Unk(f.Name, "no nil return / data parameter")
+		return
+	}
+	// the read's error variable
+	var errObj types.Object
+	var reads []Site
+	for _, s := range f.Find(func(n ast.Node) bool {
+		call, ok := n.(*ast.CallExpr)
+		if !ok {
+			return false
+		}
+		fn, ok := calleeObj(info, call).(*types.Func)
+		return ok && (fn.Name() == "Read" || fn.Name() == "ReadFull" || fn.Name() == "ReadAtLeast")
+	}) {
+		reads = append(reads, s)
+		if o, ok := resultVar(s, isErrorType); ok {
+			errObj = o
+		}
+	}
+	if errObj == nil {
+		c.Bad(f.Name+" reads to EOF", f.Pos(f.Decl), "the existing file is not read")
+		return
+	}
+	isErr := func(e ast.Expr) bool { return objOf(info, e) == errObj }
+	isEOF := func(e ast.Expr) bool {
+		sel, ok := ast.Unparen(e).(*ast.SelectorExpr)
+		return ok && (sel.Sel.Name == "EOF" || sel.Sel.Name == "ErrUnexpectedEOF")
+	}
+	eof := g.EdgesImplying(func(a Atom) bool { rel, ok := cmpRel(a, isErr, isEOF); return ok && rel == relEQ })
+	c.guardSuccess(f, "file read to EOF", eof, okRets, "the comparison can report equality without having read the existing file to its end: a longer existing object would be accepted as identical to its prefix")
+	isLenData := func(e ast.Expr) bool {
+		call, ok := ast.Unparen(e).(*ast.CallExpr)
+		return ok && isBuiltinCall(info, call, "len") && objOf(info, call.Args[0]) == dataP
+	}
+	isZero := func(e ast.Expr) bool { v, ok := constInt(info, e); return ok && v == 0 }
+	empty := g.EdgesImplying(func(a Atom) bool { rel, ok := cmpRel(a, isLenData, isZero); return ok && rel == relEQ })
+	c.guardSuccess(f, "no new data left", empty, okRets, "the comparison can report equality although part of the new data was not matched against the file")
+	// every chunk is compared: from a read, reaching the next read or a nil return passes bytes.Equal's "equal" edge
+	eqs := f.Find(func(n ast.Node) bool {
+		call, ok := n.(*ast.CallExpr)
+		return ok && matchCallee(info, call, Callee{"bytes", "", "Equal"})
+	})
+	if len(eqs) == 0 {
+		c.Bad(f.Name+" chunks compared", reads[0].Pos(), "read chunks are never compared with the new data")
+		return
+	}
+	same := g.EdgesImplying(func(a Atom) bool {
+		call, ok := ast.Unparen(a.E).(*ast.CallExpr)
+		if ok && a.Val && call == eqs[0].Call {
+			return true
+		}
+		// false edge of `n > len(data) || !bytes.Equal(..)`
+		return false
+	})
+	bad := false
+	for _, r := range reads {
+		if pt, _ := g.Reach(r.After(), Cut{Edges: same}, atAnySite(append(append([]Site{}, okRets...), reads...))); pt != nil {
+			bad = true
+		}
+	}
+	if bad || len(same) == 0 {
+		c.Bad(f.Name+" chunks compared", eqs[0].Pos(), "after a read the function can continue (or succeed) without the chunk having been found equal to the new data")
+	} else {
+		c.add(Result{Instance: f.Name + " chunks compared", Verdict: Discharged, Evals: len(reads), Sites: sitePositions(eqs), Detail: "from each read, the next read / success is reachable only on the bytes.Equal edge", Witnesses: f.WitEdges(same)})
+	}
 }
